@@ -174,7 +174,7 @@ func cmdCheck(args []string) int {
 	if *tier == "thorough" {
 		timeout = 120
 	}
-	sv := &Solver{Dir: outDir, Timeout: timeout, Agreement: *tier == "thorough", Par: runtime.NumCPU(), Prelude: e.Prelude(), QFPrelude: e.QFPrelude(), Seed: seed}
+	sv := &Solver{Dir: outDir, Timeout: timeout, Agreement: *tier == "thorough", Par: runtime.NumCPU(), Prelude: e.Prelude(), QFPrelude: e.QFPrelude(), Seed: seed, Eng: e}
 	sv.SolveAll(all)
 
 	// tally
@@ -182,13 +182,28 @@ func cmdCheck(args []string) int {
 	nObl, nDis, nCover, nCovered := 0, 0, 0, 0
 	failedByID := map[string][]*Obligation{}
 	var failedOrder []string
+	// vacuity guards: per cover id, at least one instance must be satisfiable (individual paths may be
+	// infeasible under the precondition; a function none of whose return paths is reachable is vacuous)
+	coverOK := map[string]bool{}
+	coverSeen := map[string]string{}
+	for _, o := range all {
+		if o.ExpectSat {
+			coverSeen[o.ID] = o.GoalText
+			if o.Status == "covered" {
+				coverOK[o.ID] = true
+			}
+		}
+	}
+	for _, id := range sortedKeys(coverSeen) {
+		if !coverOK[id] {
+			oc.undecided = append(oc.undecided, "vacuity guard: "+id+" is unsatisfiable ("+coverSeen[id]+")")
+		}
+	}
 	for _, o := range all {
 		if o.ExpectSat {
 			nCover++
 			if o.Status == "covered" {
 				nCovered++
-			} else {
-				oc.undecided = append(oc.undecided, "vacuity guard: "+o.ID+" is unsatisfiable ("+o.GoalText+")")
 			}
 			continue
 		}
